@@ -23,7 +23,7 @@ const (
 	DevHTTP403    = "http403"
 	DevHTTP502E   = "http502-empty"  // error status with an empty body (gateway in front of the device)
 	DevHTTP400J   = "http400-json"   // error status with a JSON/XML error document
-	DevStallBody = "stall-body" // status line, headers and the first bytes of the body arrive, then nothing more
+	DevStallBody  = "stall-body"     // status line, headers and the first bytes of the body arrive, then nothing more
 	DevRedirClose = "redirect-close" // 307 to a location that keeps the query; that request is then closed
 	DevRedirLoop  = "redirect-loop"  // 307 to itself until the client gives up
 	DevMalformed  = "malformed"
@@ -59,6 +59,7 @@ type HTTPS struct {
 	Trans    []Rec
 	point    int
 	redirect string // pending redirect deviation
+	DirtyBy  string // PAN-OS: the candidate configuration holds uncommitted changes of this administrator
 	Hung     int    // replies stalled inside the body that the client never gave up on
 	Srv      *httptest.Server
 	Commits  int
@@ -301,7 +302,13 @@ func (h *HTTPS) servePanos(w http.ResponseWriter, r *http.Request, desc, class, 
 				apiErr()
 				return
 			}
-			w.Write([]byte(panOK(h.Pan.Devices.String())))
+			cfg := h.Pan.Devices.String()
+			if h.DirtyBy != "" {
+				// uncommitted candidate changes carry these attributes
+				// (here: the first rule of the first vsys, changed by DirtyBy)
+				cfg = strings.Replace(cfg, `<rules><entry `, `<rules><entry admin="`+h.DirtyBy+`" dirtyId="7" time="2024/09/29 16:00:00" `, 1)
+			}
+			w.Write([]byte(panOK(cfg)))
 		case "show":
 			h.rec(desc, class, dev, dev == "")
 			w.Write([]byte(panOK(h.PanRun.Devices.String())))
